@@ -1,6 +1,7 @@
 import Proofs.ConfModel
 import Proofs.Blade
 import Proofs.Fund
+import Proofs.ConfCoded
 
 /-! # C08 — conformal point embeddings satisfy the model identities
 
@@ -57,6 +58,46 @@ theorem vector_wedge_bivector {R : Type} [CommRing R] (n : Nat) (sig : Nat → R
   have h := two_wedge_vector_hom n sig 2 v B hv hB
   have h2 : (sgn 2 : R) = 1 := by simp [sgn]
   rw [h2, one_smul] at h; exact h
+
+
+/-! ### composite statements: the identities with the CODED `|` and `^` tables, in the model of a conformalised layout
+
+`N = n + 2` generators, `sig n = 1`, `sig (n+1) = −1` (the two added vectors), a base vector has zero coordinates on them.
+`Cl.upC … v q = vec v + (q/2)·einf + eo` with `q = Q(v) = v·v`; `mmul N sig imtCheck` is the product behind `Layout.imt_func`
+(`|`), `wedge N` the one behind `omt_func` (`^`). -/
+section Coded
+open Cl
+variable {N : Nat} {sig : Nat → ℚ} (n : Nat) (hN : N = n + 2) (h1 : sig n = 1) (h2 : sig (n + 1) = -1)
+include h1 h2
+
+theorem coded_eo_dot_einf :
+    (asCl (mmul N sig Model.imtCheck (eoC sig n hN) (einfC sig n hN)) : Cl N sig) = -1 := Cl.coded_eo_dot_einf n hN h1 h2
+
+theorem coded_up_dot_einf (v : Fin N → ℚ) (hv : ∀ i : Fin N, n ≤ i.val → v i = 0) :
+    (asCl (mmul N sig Model.imtCheck (upC sig n hN v (Q N sig v)) (einfC sig n hN)) : Cl N sig) = -1 :=
+  Cl.coded_up_dot_einf n hN h1 h2 v hv
+
+/-- `up(x) | up(y) = −½ (Q v + Q w − 2 b)` with `2b = Q(v+w) − Q v − Q w`, i.e. `−(x−y)²/2` -/
+theorem coded_distance (v w : Fin N → ℚ) (hv : ∀ i : Fin N, n ≤ i.val → v i = 0) (hw : ∀ i : Fin N, n ≤ i.val → w i = 0) :
+    (asCl (mmul N sig Model.imtCheck (upC sig n hN v (Q N sig v)) (upC sig n hN w (Q N sig w))) : Cl N sig)
+      = (-(1/2 : ℚ) * (Q N sig v + Q N sig w - 2 * ((Q N sig (v + w) - Q N sig v - Q N sig w) / 2))) • (1 : Cl N sig) :=
+  Cl.coded_distance n hN h1 h2 v w hv hw
+
+/-- `homo`: the divisor `−((s·X) | einf)` is `s` -/
+theorem coded_homo_scale (v : Fin N → ℚ) (hv : ∀ i : Fin N, n ≤ i.val → v i = 0) (s : ℚ) :
+    -(asCl (mmul N sig Model.imtCheck (s • upC sig n hN v (Q N sig v)) (einfC sig n hN)) : Cl N sig) = s • (1 : Cl N sig) :=
+  Cl.coded_homo_scale n hN h1 h2 v hv s
+
+omit h1 h2 in
+/-- `E0 = einf ∧ eo` with the coded outer product -/
+theorem coded_E0 : E0C sig n hN = asCl (wedge N (einfC sig n hN) (eoC sig n hN)) := Cl.E0_eq_wedge n hN
+
+/-- `down(up(x)) = (up(x) ∧ E0) * E0 = x` with the coded outer product -/
+theorem coded_down_up (v : Fin N → ℚ) (hv : ∀ i : Fin N, n ≤ i.val → v i = 0) :
+    (asCl (wedge N (upC sig n hN v (Q N sig v)) (E0C sig n hN)) : Cl N sig) * E0C sig n hN = vec v :=
+  Cl.coded_down_up n hN h1 h2 v hv
+
+end Coded
 
 /-- non-vacuity: Cl(1,0) conformalised (N = 3, sig = (1, 1, -1)), the base vector 3·e₀ -/
 example : ∃ q : ℚ, Rel (Cl.vec (fun i : Fin 3 => if i.val = 0 then (3 : ℚ) else 0) : Cl 3 (fun i => if i = 2 then (-1 : ℚ) else 1))
